@@ -13,6 +13,7 @@ import (
 	"net/url"
 	"sort"
 	"strconv"
+	"slices"
 	"strings"
 	"sync"
 	"testing"
@@ -300,7 +301,7 @@ var (
 func TestC20(t *testing.T) {
 	rec := ev.Get("C20")
 	rec.Rule("state machine over a fake Cloudflare v4 API (zones lookup, paged dns_records with result_info as the real API reports it - count = items on this page -, PATCH; failures HTTP 403/404, success:false with and without error details, and 500 in the thorough tier): 1..3 zones with 0..60 HTTPS records whose value is a generated SvcParams string (alpn, no-default-alpn, port, hints, unknown keys, with/without one ech - random or already equal to one of the two lists the case publishes -, quoted/unquoted, any position) plus non-HTTPS records; actions publish(targets drawn from existing / missing / duplicate / unknown-zone names, config list fresh or repeated), edit the zone, switch a failure on/off. Model = copy of the store. Oracle after every publish: one result per target in order with the predicted status class; for every record: requested+existing+no failure -> tokens(value) == tokens(old value without ech) + exactly one ech == base64(list), priority/target kept; otherwise byte-for-byte unchanged; PATCH requests == distinct records whose value was not current; no request touches another record. distinct = (zone shape, target-list shape, failure set); non-trivial = at least one existing target")
-	rec.Mandatory("failure_then_recovery_scripted", "record_on_page_ge2", "duplicate_target", "existing_ech_replaced", "value_already_current", "failure_one_zone_only", "unknown_zone", "missing_record", "patch_failure", "current_in_other_form")
+	rec.Mandatory("failure_then_recovery_scripted", "record_on_page_ge2", "duplicate_target", "existing_ech_replaced", "value_already_current", "failure_one_zone_only", "unknown_zone", "missing_record", "patch_failure", "current_in_other_form", "same_name_in_parent_and_child_zone")
 	thorough := false
 	rapid.Check(t, func(t *rapid.T) {
 		cfAPIOnce.Do(func() {
@@ -320,8 +321,14 @@ func TestC20(t *testing.T) {
 		c20Lists = lists
 		nz := rapid.IntRange(1, 3).Draw(t, "nzones")
 		rid := 0
+		// zone 1 may be a delegated child of zone 0, and the parent may still hold a record
+		// for a name inside the child: one fully qualified name, two records in two zones
+		childZone := nz >= 2 && rapid.IntRange(0, 2).Draw(t, "child_zone") == 0
 		for zi := 0; zi < nz; zi++ {
 			z := &cfZone{ID: fmt.Sprintf("zone%did", zi), Name: fmt.Sprintf("zone%d.example", zi)}
+			if childZone && zi == 1 {
+				z.Name = "sub.zone0.example"
+			}
 			var n int
 			switch rapid.IntRange(0, 3).Draw(t, "sizeclass") {
 			case 0:
@@ -338,7 +345,16 @@ func TestC20(t *testing.T) {
 					z.Records = append(z.Records, &cfRecord{ID: fmt.Sprintf("rec%d", rid), Name: fmt.Sprintf("h%d.%s", i, z.Name), Type: "A", Value: "192.0.2.1"})
 				}
 			}
+			if childZone && zi == 1 && n == 0 {
+				rid++
+				z.Records = append(z.Records, &cfRecord{ID: fmt.Sprintf("rec%d", rid), Name: "h0." + z.Name, Type: "HTTPS", Priority: 1, Target: ".", Value: genSvcValue(t, "v")})
+			}
 			api.zones = append(api.zones, z)
+		}
+		if childZone {
+			rid++
+			api.zones[0].Records = append(api.zones[0].Records, &cfRecord{ID: fmt.Sprintf("rec%d", rid), Name: "h0.sub.zone0.example", Type: "HTTPS", Priority: 1, Target: ".", Value: genSvcValue(t, "v")})
+			cl = append(cl, "same_name_in_parent_and_child_zone")
 		}
 		cf := publish.NewCloudflarePublisher("tok")
 		cf.SetBaseURLForVerif(api.url, 5*time.Millisecond, 2)
@@ -398,6 +414,12 @@ func TestC20(t *testing.T) {
 					case kk == 1 || len(https) == 0:
 						targets = append(targets, publish.Target{Zone: z.Name, Name: "missing." + z.Name})
 						shape = append(shape, "missing")
+					case kk == 3 && len(api.zones) > 1:
+						// a name that exists, but in another zone than the one given
+						oz := api.zones[(slices.Index(api.zones, z)+1)%len(api.zones)]
+						nm := "h0." + oz.Name
+						targets = append(targets, publish.Target{Zone: z.Name, Name: nm})
+						shape = append(shape, "name_of_other_zone")
 					case kk == 2 && len(targets) > 0:
 						targets = append(targets, targets[rapid.IntRange(0, len(targets)-1).Draw(t, "dup")])
 						shape = append(shape, "dup")
